@@ -114,6 +114,7 @@ EXTENDS Naturals, TLC
 
 CONSTANTS Handlers,      \* extension versions (directories); handler h packages agent version h
           Seqs,          \* sequence numbers the guest agent may deliver (strings, non-empty)
+          Allowed,       \* the <<handler, command>> pairs the guest agent may issue (AllCmds = no restriction)
           Good,          \* agent versions that come up healthy and write status.json; subset of Versions
           OsSupported,   \* check_os_version_supported()
           SpawnMayFail,  \* `enable` may be unable to start ProxyAgentExt (6 attempts, then exit 7)
@@ -128,6 +129,10 @@ Versions == Handlers \cup {"x0"}
 PkgOf(h) == h
 StatusVals == {None, "transitioning", "success", "error"}
 Cmds == {"install", "enable", "disable", "update", "uninstall", "reset"}
+AllCmds == Handlers \X Cmds
+\* an update from version h1 to h2 as the guest agent drives it (in any order, any number of times)
+UpdateCmds == {<<"h1", "enable">>, <<"h1", "disable">>, <<"h1", "uninstall">>,
+               <<"h2", "update">>, <<"h2", "install">>, <<"h2", "enable">>, <<"h2", "disable">>}
 
 VARIABLES
   \* handler environment
@@ -320,6 +325,7 @@ RsSeq ==
 
 BeginCmd == \E h \in Handlers, c \in Cmds, s \in Seqs :
               \* the number matters to `enable` and to the unsupported-OS report only
+              /\ <<h, c>> \in Allowed
               /\ (c # "enable" /\ OsSupported) => s = CHOOSE x \in Seqs : TRUE
               /\ Begin(h, c, s)
 
